@@ -55,6 +55,9 @@ def safe_cell_text(rng, convert=True, long_p=0.0):
         return ""
     if r < 0.2:
         return " " * rng.randint(1, 3)
+    if r < 0.24:
+        # values that are sentinels elsewhere in the library
+        return rng.choice(["-----", "None", "null", "nan", "0", "-"])
     t = text(rng, alpha, 1, 14)
     if rng.random() < 0.25:
         t = " " * rng.randint(1, 3) + t
@@ -412,6 +415,8 @@ def gen_table_spec(rng, *, nrows=(0, 30), ncols=(1, 6), strategy=None, header=No
             body["new_page"] = True
             if strategy == "page_by_new_first" or (strategy == "nested" and rng.random() < 0.5):
                 body["pageby_row"] = "first_row"
+    if pg and "pageby_row" not in body and rng.random() < 0.2:
+        body["pageby_row"] = "first_row"          # without new_page the option must change nothing
     if sb:
         body["subline_by"] = meta["subline_by"]
         if pg and rng.random() < 0.4:
@@ -554,13 +559,14 @@ def gen_figure_file(rng, idx, fmt=None):
     fmt = fmt or rng.choice(["png", "png", "jpeg", "jpeg", "emf"])
     extra = rng.choice([0, 1, 7, 39, 40, 41, 79, 80, 81, rng.randint(0, 4000)])
     if fmt == "png":
-        w = rng.choice([1, 2, 640, 65535, 65536, 2**31 - 1, rng.randint(1, 2**31 - 1)])
-        h = rng.choice([1, 3, 480, 65535, 70000, 2**31 - 1, rng.randint(1, 2**31 - 1)])
+        w = rng.choice([0, 1, 2, 640, 65535, 65536, 2**31 - 1, rng.randint(1, 2**31 - 1)])
+        h = rng.choice([0, 1, 3, 480, 65535, 70000, 2**31 - 1, rng.randint(1, 2**31 - 1)])
         data = png_bytes(rng, w, h, extra)
         suffix = rng.choice([".png", ".png", ".PNG", ".Png"])
     elif fmt == "jpeg":
-        w = rng.choice([1, 2, 640, 65535, rng.randint(1, 65535)])
-        h = rng.choice([1, 3, 480, 65535, rng.randint(1, 65535)])
+        # (a frame height of 0 is legal JPEG: the line count may follow in a DNL segment)
+        w = rng.choice([0, 1, 2, 640, 65535, rng.randint(1, 65535)])
+        h = rng.choice([0, 1, 3, 480, 65535, rng.randint(1, 65535)])
         data = jpeg_bytes(rng, w, h, extra)
         suffix = rng.choice([".jpg", ".jpeg", ".JPG", ".JPEG", ".Jpeg"])
     else:
